@@ -83,8 +83,10 @@ class HistGen:
             tags.append([name] + [r.choice(TVALS) for _ in range(k)])
         if r.random() < 0.1 and tags:
             tags.append(list(r.choice(tags)))       # repeated tag
-        if r.random() < 0.05:
-            tags.append([])
+        if r.random() < 0.08:
+            tags.insert(r.randrange(len(tags) + 1), [])     # an empty tag, anywhere (also BEFORE indexed tags)
+        if r.random() < 0.04:
+            tags.insert(r.randrange(len(tags) + 1), [r.choice(LETTERS)])   # a name without a value
         if 30000 <= kind < 40000 and r.random() < 0.15:
             tags.append([b"d", r.choice(DVALS)])    # a second d tag (not the address)
         r.shuffle(tags) if r.random() < 0.2 else None
@@ -230,7 +232,32 @@ class HistGen:
         r = self.r
         f = {"ids": [], "authors": [], "kinds": [], "tags": [], "since": None, "until": None, "limit": None}
         base = r.choice(self.events) if self.events and r.random() < 0.85 else None
-        shape = r.choice(["ids", "authors", "ak", "at", "kt", "t", "scrape", "kinds", "mixed", "mixed", "akt", "akt", "akd"])
+        shape = r.choice(["ids", "authors", "ak", "at", "kt", "t", "scrape", "kinds", "mixed", "mixed", "akt", "akt", "akd", "mvl", "mvl"])
+        if shape == "mvl":
+            # several values of one tag letter, each carried by stored events, and a limit BELOW the number of matches:
+            # the newest `limit` over ALL the values must be returned, whichever index (kind+tag / author+tag / tag) serves it
+            groups = {}
+            for e in self.events:
+                for t in e["tags"]:
+                    if len(t) >= 2 and len(t[0]) == 1:
+                        groups.setdefault(t[0], {}).setdefault(t[1], []).append(e)
+            cands = [(L, vs) for L, vs in groups.items() if len(vs) >= 2 and sum(len(x) for x in vs.values()) >= 3]
+            if cands:
+                L, vs = r.choice(cands)
+                vals = list(vs)
+                r.shuffle(vals)
+                vals = vals[:r.choice([2, 2, 3, 4])]
+                evs = {e["id"]: e for v in vals for e in vs[v]}
+                plan = r.choice(["kt", "kt", "at", "t"])
+                if plan == "kt":
+                    f["kinds"] = sorted({e["kind"] for e in evs.values()})[:r.choice([1, 2, 4])]
+                elif plan == "at":
+                    f["authors"] = sorted({e["pk"] for e in evs.values()})[:r.choice([1, 2, 4])]
+                f["tags"] = [[L] + vals]
+                f["limit"] = r.choice([2, 2, 3, max(2, len(evs) - 1)])
+                self.ops.append(("query", f, [], 1, 100, 10 ** 6, self.now))
+                return
+            shape = "kt"
         if shape == "akd":
             # one author, one parameterized-replaceable kind, ONE d value carried by several of their events
             # (as the address of one, as a later d tag of others): all of them qualify
